@@ -134,6 +134,12 @@ pub fn run_sess(tr: &mut Trace, run: u64, seed: u64, prof: SProfile) -> SessStat
     // the client's frames are lost for the next few seconds (its DISCONNECT and its DISCONNECT-ACK), the server's get through
     let crossing: Vec<bool> = (0..nclients).map(|_| prof == SProfile::Flush && r.chance(1, 5)).collect();
     let mut oneway: Vec<(u64, u64, usize, bool)> = Vec::new(); // (t0, t1, slot, frames towards the server)
+    // kick (a quarter of the handshake / life / timeout runs): an application that ends a connection as soon as it learns of
+    // it (ban list, failed log-in) - while timers of the handshake are still queued - and whose peer then often cannot be
+    // reached, so that the whole retry schedule of the disconnect runs.  Its own generator: other choices are unaffected.
+    let mut kick_rng = Rng::new(seed ^ 0x6B1C_4B1C);
+    let kick = matches!(prof, SProfile::Handshake | SProfile::Life | SProfile::Timeout) && kick_rng.chance(1, 4);
+    let mut kicked: Vec<bool> = vec![false; nclients];
     let mut flushed: Vec<bool> = vec![false; nclients];
     let mut archive: Vec<(usize, bool, Vec<u8>)> = Vec::new(); // handshake frames seen (slot, to_server, bytes)
     let mut assigned = 0usize; // held[..assigned] already have a fate
@@ -216,6 +222,22 @@ pub fn run_sess(tr: &mut Trace, run: u64, seed: u64, prof: SProfile) -> SessStat
             }
             if prof == SProfile::Flush && round == peer_closes_at[i] {
                 s.app_disconnect(tr, !closer_is_server[i], i, r.chance(1, 3));
+            }
+            if kick && !kicked[i] {
+                let addr = s.slots[i].relay_addr;
+                let server_side = kick_rng.chance(2, 3);
+                let up = if server_side { s.server.as_mut().unwrap().client(&addr).map_or(false, |rc| rc.borrow().is_active()) }
+                         else { s.slots[i].client.as_ref().map_or(false, |c| c.is_active()) };
+                if up && kick_rng.chance(2, 3) {
+                    kicked[i] = true;
+                    s.app_disconnect(tr, server_side, i, kick_rng.chance(2, 3));
+                    if !lossfree && kick_rng.chance(2, 3) {
+                        // the peer is unreachable from now on (both directions, or only the answers)
+                        let t0 = s.t_ms();
+                        let len = *kick_rng.pick(&[3000u64, 9000, 30000, 60000]);
+                        if kick_rng.chance(1, 2) { blackout.push((t0, t0 + len, i)); } else { oneway.push((t0, t0 + len, i, server_side)); }
+                    }
+                }
             }
             let pd: u64 = match prof { SProfile::Life => 3, SProfile::Handshake => 1, _ => 0 };
             if r.chance(pd, 100) {
